@@ -193,12 +193,42 @@ def run(seed, tier, extra_cases=None, use_cache=True):
                  ("missing-map", os.path.join(fsdir, "missingmap.js"), 1, os.path.join(fsdir, "missingmap.js"), 1),
                  ("no-such-file", os.path.join(fsdir, "nope.js"), 4, os.path.join(fsdir, "nope.js"), 4),
                  ("never-rewritten", "/w/other/unknown.js", 9, "/w/other/unknown.js", 9)]
+    # on-disk files with random maps (external file or inline; several sources, names, unmapped segments; no
+    # sourceRoot): arbitrary positions are looked up through getOriginalPathAndLineFromSourceMap
+    disk = []
+    for k in range(6 if tier == "quick" else 40):
+        code = mp.LAYOUT_TEMPLATES[k % len(mp.LAYOUT_TEMPLATES)]
+        while True:
+            omap_text, _ = mp.rand_orig_map(prng, code.rstrip("\n"), prng.choice(["random", "sparse", "late", "dense"]))
+            mo = json.loads(omap_text)
+            if "sourceRoot" not in mo:
+                break
+        fn = os.path.join(fsdir, "disk%d.js" % k)
+        if k % 2:
+            open(fn, "w").write(code + "//# sourceMappingURL=disk%d.js.map\n" % k)
+            open(fn + ".map", "w").write(omap_text)
+        else:
+            open(fn, "w").write(code + "//# sourceMappingURL=data:application/json;base64," + base64.b64encode(omap_text.encode()).decode() + "\n")
+        toks = [{"gl": t[0], "gc": t[1], "mapped": t[2] is not None,
+                 "src": posixpath.normpath(fsdir + "/" + mo["sources"][t[2]]) if t[2] is not None else "",
+                 "sl": t[3] if t[2] is not None else 0, "sc": t[4] if t[2] is not None else 0, "name": ""}
+                for t in sorted(vlib.decode_mappings(mo["mappings"]), key=lambda t: (t[0], t[1]))]
+        disk.append((fn, toks, code.count("\n") + 2))
     jobs = [{"id": "setup", "op": "setup", "repo": vlib.REPO, "table": table, "texts": tx, "config": CFG}]
+    disk_toks = {}
     for hi, h in enumerate(hists):
         steps = [{"op": s["op"], "file": FILES[s["file"]], "version": s.get("version", ""), "positions": s.get("positions", [])} for s in h]
         if hi % 10 == 0:
             for kind, f, ln, ep, el in originals:
                 steps.append({"op": "original", "file": f, "line": ln, "col": 1, "kind": kind, "exp_path": ep, "exp_line": el})
+        if hi % 90 == 0:
+            for fn, toks, nl in prng.sample(disk, 2):
+                disk_toks[fn] = toks
+                pos = [[prng.randint(1, nl), prng.randint(1, 90)] for _ in range(6)]
+                for t in prng.sample(toks, min(4, len(toks))):
+                    pos += [[t["gl"] + 1, t["gc"] + 1], [t["gl"] + 1, t["gc"] + 2]]
+                for ln, col in pos:
+                    steps.append({"op": "original", "file": fn, "line": ln, "col": col, "kind": "disk-probe", "exp_path": "", "exp_line": 0})
         jobs.append({"id": "h%d" % hi, "steps": steps})
     # the runner keeps the shared setup per process: give every chunk its own setup job
     nproc = min(vlib.NCPU, 8)
@@ -247,7 +277,7 @@ def run(seed, tier, extra_cases=None, use_cache=True):
                    "status": str(e.get("status", "")), "same_text": bool(e.get("same_text")), "has_trailer": bool(e.get("has_trailer")),
                    "fresh_same": bool(e.get("fresh_same")), "fresh_diff": str(e.get("fresh_diff", "")),
                    "has_hook": bool(e.get("has_hook")), "frames": [], "res_path": "", "res_line": 0, "exp_path": "", "exp_line": 0,
-                   "kind": "", "line": 0, "probes": []}
+                   "kind": "", "line": 0, "col": 0, "res_col": 0, "toks": [], "probes": []}
             if e["op"] == "probe":
                 rec["probes"] = [{"l": int(q[0]), "c": int(q[1]), "path": str(q[2]), "line": int(q[3] or 0), "col": int(q[4] or 0)}
                                  for q in e.get("results", [])]
@@ -260,6 +290,8 @@ def run(seed, tier, extra_cases=None, use_cache=True):
                 res = e.get("result") or {}
                 rec.update({"res_path": str(res.get("path", "")), "res_line": int(res.get("line", 0) or 0),
                             "exp_path": spec["exp_path"], "exp_line": spec["exp_line"], "kind": spec["kind"], "line": spec["line"],
+                            "col": spec["col"], "res_col": int(res.get("column", 0) or 0),
+                            "toks": disk_toks.get(spec["file"], []) if spec["kind"] == "disk-probe" else [],
                             "hist": hi})
             recs.append(rec)
             bycase[rid] = {"name": "history %d" % hi, "history": h, "event": e, "code": json.dumps(h), "key": [hi, rid]}
